@@ -8,20 +8,35 @@ import (
 )
 
 type SurnameInList struct {
-	document *gedcom.Document
-	surname  string
+	document   *gedcom.Document
+	surname    string
+	visibility LivingVisibility
 }
 
 func NewSurnameInList(document *gedcom.Document, surname string) *SurnameInList {
 	return &SurnameInList{
-		document: document,
-		surname:  surname,
+		document:   document,
+		surname:    surname,
+		visibility: LivingVisibilityShow,
 	}
+}
+
+// Visibility controls if living individuals are counted. All individuals are
+// counted by default.
+func (c *SurnameInList) Visibility(visibility LivingVisibility) *SurnameInList {
+	c.visibility = visibility
+
+	return c
 }
 
 func (c *SurnameInList) WriteHTMLTo(w io.Writer) (int64, error) {
 	count := 0
 	for _, individual := range c.document.Individuals() {
+		// Living individuals are only counted if they are shown.
+		if individual.IsLiving() && c.visibility != LivingVisibilityShow {
+			continue
+		}
+
 		if individual.Name().Surname() == c.surname {
 			count++
 		}
